@@ -8,8 +8,11 @@ mutation is applied in memory (nothing is written to /repo) and the VCs are rege
                        run the bounded rung and the replay then decide)
   survived             every obligation is still proved.  The mutant is then compiled into the real module and
                        compared with the original function on the contract's bounded domain:
-      equivalent-within-bounds   same outcome everywhere   (an equivalent mutant, or one outside the bounded scope)
-      SURVIVED-DIFFERENT         behaviour differs while the proof is unchanged => the contract is too weak there.
+      UNSOUND-...                      the contract fails when the mutant is run: the engine proved something false
+      equivalent-within-bounds         same outcome everywhere (an equivalent mutant, or one outside the bounded scope)
+      survived-satisfies-the-contract  behaviour differs, the contract still holds when run: an implementation the
+                                       property also allows (e.g. which of two equal durations is kept)
+      survived-outside-the-property    differs only in a part of the result the property does not speak about.
 Usage: tools/mutation_selftest.py [--only NAME ...] [--max N] [--jobs J]   -> selftest/mutation_report.json
 """
 from __future__ import annotations
@@ -198,10 +201,17 @@ def work(job):
         out["verdict"] = "survived-uncomparable"
         out["reason"] = f"{type(e).__name__}: {e}"[:200]
         return out
+    # soundness cross-check: a mutant whose obligations are all proved must satisfy the contract when it is run
+    b = proof.bounded_contract(c, "quick", 1, it.gen, it.call, it.bounds, fn=fn_m)
+    out["contract_evaluations_on_mutant"] = b["evaluations"]
+    if b["failures"]:
+        out["verdict"] = "UNSOUND-proved-but-contract-fails-when-run"
+        out["witness"] = {"args": repr(b["failures"][0]["args"])[:300], "failures": b["failures"][0]["failures"]}
+        return out
     if diff is None:
         out["verdict"] = "equivalent-within-bounds"
     else:
-        out["verdict"] = "SURVIVED-DIFFERENT"
+        out["verdict"] = "survived-satisfies-the-contract"  # a different implementation the property also allows
         out["witness"] = diff
         words, why = OUT_OF_SCOPE.get(c.name, ((), ""))
         if any(w in desc for w in words):
@@ -266,7 +276,7 @@ def main():
     with ProcessPoolExecutor(a.jobs, mp_context=mp.get_context("fork")) as ex:
         for r in ex.map(work, jobs, chunksize=1):
             res.append(r)
-            if r["verdict"].startswith("SURVIVED") or r["verdict"] == "survived-uncomparable":
+            if r["verdict"].startswith(("UNSOUND", "survived-")):
                 print(r["function"], r["mutant"], r["verdict"], r.get("witness", r.get("reason")), flush=True)
     summ: dict = {}
     for r in res:
